@@ -332,8 +332,14 @@ func (p *Prog) geq(v ssa.Value, facts []Cmp, src func(ssa.Value) bool, depth int
 	}
 	for _, f0 := range facts {
 		for _, f := range []Cmp{f0, f0.Flip()} {
-			if (f.Op == ">" || f.Op == ">=") && f.Y != nil && unconv(f.X) == u && (src(unconv(f.Y)) || src(f.Y)) {
-				return true
+			if (f.Op == ">" || f.Op == ">=") && f.Y != nil && unconv(f.X) == u {
+				if src(unconv(f.Y)) || src(f.Y) {
+					return true
+				}
+				// transitively: at least a value that is itself at least the source (a parameter fed from it)
+				if _, isParam := unconv(f.Y).(*ssa.Parameter); isParam && p.geq(f.Y, nil, src, depth+2) {
+					return true
+				}
 			}
 		}
 	}
